@@ -35,6 +35,8 @@ type SASLConfig struct {
 	WrongServerSig     bool  // SCRAM: send a wrong server signature in server-final
 	BadNonce           bool  // SCRAM: server-first nonce does not extend the client nonce
 	MalformServerFinal bool  // SCRAM: send a server-final message that is neither v=... nor e=...
+	EmptyServerFirst   bool  // SCRAM: answer client-first with zero bytes and no error code
+	EmptyServerFinal   bool  // SCRAM: answer client-final with zero bytes and no error code
 	ServerFinalError   bool  // SCRAM: send "e=other-error" as server-final with error code 0 (in-band SCRAM error)
 	ServerIterations   int   // SCRAM: iteration count announced and used by the server when != 0 (e.g. below a client minimum)
 	// TruncateRawAtStep: in a raw (handshake v0) exchange the answer to authenticate round n announces TruncateRawAnnounce
@@ -391,6 +393,9 @@ func (s *scramServer) step(in string) (out string, done bool, err error) {
 		if s.cfg.MalformServerFirst {
 			s.sf = "r=" + s.nonce + ",x=garbage"
 		}
+		if s.cfg.EmptyServerFirst {
+			s.sf = ""
+		}
 		return s.sf, false, nil
 	case 2:
 		// client-final: c=biws,r=<nonce>,p=<proof>
@@ -442,6 +447,8 @@ func (s *scramServer) step(in string) (out string, done bool, err error) {
 		switch {
 		case s.cfg.MalformServerFinal:
 			return "x=garbage", true, nil
+		case s.cfg.EmptyServerFinal:
+			return "", true, nil
 		case s.cfg.ServerFinalError:
 			return "e=other-error", true, nil
 		}
